@@ -135,7 +135,7 @@ void run(size_t idx) {
 
 MonReg reg({"C07", "exploration",
 			"every file written by the workload (real and float-mutated samples as loaded and after rounds of random public-API edits; one synthesised file per block type x version x seed "
-			"as loaded and second generation; API-built models incl. freshly added blocks, before and after edits; raw and default options each) is parsed by an independent header reader: "
+			"as loaded and second generation; API-built models incl. freshly added blocks, before and after edits (edits include SetExportInfo / SetCreatorInfo with lengths around 254..256 and the chunk boundaries); every second model is loaded / created in a NifFile object that has held another model; 36 versions for the synthesised files; raw and default options each) is parsed by an independent header reader: "
 			"header end + sum of declared sizes + 8-byte footer {1,0} = file size, type indices in range, block type names match the objects, each declared size equals the bytes the "
 			"writer emitted between consecutive Block hook events AND the bytes the library's reader consumes on reload, maxStringLen is the true maximum, no duplicate strings (no unknown "
 			"blocks), every string index at a StringRef hook offset is empty or inside the table and denotes the field's text. Non-trivial = written file with >1 block; distinct by output hash.",
